@@ -12,7 +12,10 @@ import (
 	"fmt"
 	"os"
 
+	bgvlt "github.com/tuneinsight/lattigo/v6/circuits/bgv/lintrans"
+	bgvpoly "github.com/tuneinsight/lattigo/v6/circuits/bgv/polynomial"
 	"github.com/tuneinsight/lattigo/v6/core/rlwe"
+	"github.com/tuneinsight/lattigo/v6/utils/bignum"
 	"github.com/tuneinsight/lattigo/v6/multiparty"
 	"github.com/tuneinsight/lattigo/v6/utils/sampling"
 	"github.com/tuneinsight/lattigo/v6/multiparty/mpbgv"
@@ -33,6 +36,8 @@ type stepT struct {
 	K     int    `json:"k,omitempty"`
 	Order int    `json:"order"`
 	Chunk int    `json:"chunk,omitempty"`
+	P     int    `json:"p,omitempty"`
+	M     int    `json:"m,omitempty"`
 }
 
 type event struct {
@@ -48,6 +53,8 @@ type event struct {
 	K       int    `json:"k"`
 	Order   int    `json:"order"`
 	Chunk   int    `json:"chunk"`
+	P       int    `json:"p"`
+	M       int    `json:"m"`
 	Vals    []int  `json:"vals"`
 	Lvl     int    `json:"lvl"`
 	Deg     int    `json:"deg"`
@@ -118,6 +125,9 @@ func (w *world) vec(v []int) []uint64 {
 	return out
 }
 
+// rowVec: the period-4 pattern along both rows
+func (w *world) rowVec(v []int) []uint64 { return w.vec(v) }
+
 // observe decrypts a register under the key the model assigns and checks the period-4 pattern.
 func (w *world) observe(name string, e *event) {
 	ct := w.reg[name]
@@ -165,7 +175,7 @@ func (w *world) out(name string, like *rlwe.Ciphertext) *rlwe.Ciphertext {
 }
 
 func (w *world) step(st stepT) event {
-	e := event{Ev: st.Op, R: st.R, V: st.V, How: st.How, A: st.A, B: st.B, Out: st.Out, K: st.K, Order: st.Order, Chunk: st.Chunk, Vals: []int{}}
+	e := event{Ev: st.Op, R: st.R, V: st.V, How: st.How, A: st.A, B: st.B, Out: st.Out, K: st.K, Order: st.Order, Chunk: st.Chunk, P: st.P, M: st.M, Vals: []int{}}
 	err, pan, msg := guarded(func() error {
 		switch st.Op {
 		case "enc":
@@ -292,6 +302,42 @@ func (w *world) step(st stepT) event {
 			dst.Resize(res.Degree(), res.Level())
 			dst.Copy(res)
 			w.key[st.Out] = 2
+			w.observe(st.Out, &e)
+		case "poly":
+			ct := w.reg[st.A]
+			k := w.key[st.A]
+			coeffs := [][]uint64{{1, 0, 1}, {0, 2, 0, 1}}[st.P-1]
+			pe := bgvpoly.NewEvaluator(w.p, w.eval[k-1])
+			res, err := pe.Evaluate(ct, bignum.NewPolynomial(bignum.Monomial, coeffs, nil), w.p.DefaultScale())
+			if err != nil {
+				return err
+			}
+			dst := w.out(st.Out, res)
+			dst.Resize(res.Degree(), res.Level())
+			dst.Copy(res)
+			w.key[st.Out] = k
+			w.observe(st.Out, &e)
+		case "lin":
+			ct := w.reg[st.A]
+			k := w.key[st.A]
+			menu := [][2][]int{{{1, 2, 3, 4}, {5, 0, 1, 2}}, {{0, 0, 0, 0}, {1, 1, 1, 1}}}[st.M-1]
+			lp := bgvlt.Parameters{DiagonalsIndexList: []int{0, 1}, LevelQ: w.p.MaxLevel(), LevelP: w.p.MaxLevelP(), Scale: w.p.DefaultScale(),
+				LogDimensions: ring.Dimensions{Rows: 1, Cols: w.p.LogMaxSlots() - 1}, LogBabyStepGiantStepRatio: -1}
+			lt := bgvlt.NewLinearTransformation(w.p, lp)
+			if err := bgvlt.Encode(w.ecd, bgvlt.Diagonals[uint64]{0: w.rowVec(menu[0]), 1: w.rowVec(menu[1])}, lt); err != nil {
+				return err
+			}
+			res, err := bgvlt.NewEvaluator(w.eval[k-1]).EvaluateNew(ct, lt)
+			if err != nil {
+				return err
+			}
+			if err := w.eval[k-1].Rescale(res, res); err != nil {
+				return err
+			}
+			dst := w.out(st.Out, res)
+			dst.Resize(res.Degree(), res.Level())
+			dst.Copy(res)
+			w.key[st.Out] = k
 			w.observe(st.Out, &e)
 		case "refresh":
 			ct := w.reg[st.A]
